@@ -200,6 +200,14 @@ Section Iterate.
     split; [apply fresh_sorted; exact W|]. intros x. rewrite (fresh_in g W). apply (X_reach g P X).
   Qed.
 
+  (* whoever enumerates the same members in ascending order has the iterator's output *)
+  Theorem iteration_is_any_sorted_enumeration keys : StronglySorted N.lt keys -> (forall x, In x keys <-> P x) ->
+    drain_iter g (S (weight (fresh g))) (fresh g) = Some keys.
+  Proof.
+    intros Hs Hk. destruct iteration_exact as [out [E [So Io]]]. rewrite E. apply (f_equal (@Some (list N))).
+    apply sorted_ext; [exact So|exact Hs|]. intros x. rewrite Io, Hk. reflexivity.
+  Qed.
+
   (* cut up by any tree of BitProducer::split: every leaf's loop ends, and the leaves' outputs, one after the other, are
      the sequential output: every member is yielded by exactly one leaf, exactly once *)
   Theorem split_tree_exact t :
